@@ -139,6 +139,11 @@ def run(chk):
                             if cmv is not None:
                                 other = ("int", cmv)          # a const data member with a constant in-class initialiser
                         if other[0] != "int":
+                            if other[0] in ("idx", "var") or any(st_[0] in ("idx", "var") for st_ in sym.subterms(other)):
+                                # the tag is looked up in a table / compared with a computed value: which tags end up accepted is a
+                                # property of that search, which this rule does not evaluate
+                                chk.broken("%s: the tag read at line %s is compared with %s (a table element or a computed value): the set of accepted tags is not decided" % (
+                                    f.name, first["l"], sym.show(other)[:60]))
                             detail = "tag compared with %s, not a constant" % sym.show(other)
                         elif not fatal:
                             detail = "mismatch branch at line %s returns to the caller" % x["l"]
